@@ -205,6 +205,7 @@ def run(facts, res):
     from ..common import whole_iteration
     from ..conds import all_edge_lits
     n_k4 = 0
+    seen_fn = set()
     for fn in ("melda::Melda::commit", "melda::Melda::stage"):
         fb = facts.body(fn)
         if fb is None:
@@ -221,8 +222,26 @@ def run(facts, res):
                     if "melda::Change" not in (t.callee.full or ""):
                         continue
                 pushes.append((bi, t))
+            # keyed accumulation (map / set insert under is_staging) can collapse two staged entries into one record
+            for bi, t in cb.calls():
+                if t.callee is None or t.callee.name != "insert" or len(t.args) < 2:
+                    continue
+                if not any(k_ in (t.callee.path or "") + (t.callee.self_ty or "") for k_ in ("BTreeMap", "HashMap", "BTreeSet", "HashSet")):
+                    continue
+                if not any(l.kind == "call" and callee_name(l.term) == "is_staging" and l.truth is True for l in lits_of(cb, bi, facts)):
+                    continue
+                seen_fn.add(fn)
+                key_t = du.operand_term(t.args[1], 20)
+                whole_rev = contains_call(key_t, "to_string") or not (contains_call(key_t, "digest") or contains_call(key_t, "index"))
+                res.instance("K4", "%s: change records accumulated in a keyed collection; the key identifies the whole revision: %s" % (cb.path, whole_rev), cb.loc(t.line))
+                if not whole_rev:
+                    res.violation("K4", "%s|records-collapsed-by-key" % fn,
+                                  "%s accumulates change records in a keyed collection whose key is a projection of the revision (digest / index): two staged "
+                                  "revisions of one object with the same digest (toggle A-B-A-B, delete/re-create/delete, two resolution markers) "
+                                  "collapse into one record" % fn, cb.loc(t.line))
             if not pushes:
                 continue
+            seen_fn.add(fn)
             for bi, t in pushes:
                 n_k4 += 1
                 v = du.operand_term(t.args[1], 30)
@@ -271,6 +290,7 @@ def run(facts, res):
                 if not ok:
                     res.violation("K4", "%s|staged-entry-skipped" % fn, "%s can skip the change record of a staged entry" % fn, cb.loc())
     res.floor("K4", "change-record push sites in commit and stage", n_k4, 2)
+    res.floor("K4", "functions with change-record accumulation sites (commit, stage)", len(seen_fn), 2)
 
     # ------------------------------------------------------------------ K5 everything staged is packed
     res.rule("K5", "commit stages nothing after writing the pack (every staged object is in the pack the block references)")
